@@ -86,28 +86,34 @@ Definition spawns_closer (p : prog) (c : string) (i : instr) : bool :=
 
 (* must-analysis on structured code: [Some true] = on every path reaching the end the channel is
    taken care of, [Some false] = some path reaches the end without; [None] = a path RETURNS without *)
-Fixpoint must_i (p : prog) (c : string) (done : bool) (i : instr) {struct i} : option bool :=
-  let must_l := fix must_l (done : bool) (code : list instr) {struct code} : option bool :=
+Section Must.
+  Variable p : prog.
+  Variable c : string.
+
+  Fixpoint must_i (done : bool) (i : instr) {struct i} : option bool :=
+    let must_l := fix must_l (done : bool) (code : list instr) {struct code} : option bool :=
+      match code with
+      | [] => Some done
+      | i :: k => match must_i done i with Some d => must_l d k | None => None end
+      end in
+    match i with
+    | IChan ChClose c' => Some (done || String.eqb c c')
+    | IGo _ => Some (done || spawns_closer p c i)
+    | IIf a b => match must_l done a, must_l done b with
+                 | Some x, Some y => Some (x && y)
+                 | _, _ => None
+                 end
+    | ILoop b => match must_l done b with Some _ => Some done | None => None end
+    | IReturn => if done then Some true else None
+    | _ => Some done
+    end.
+
+  Fixpoint must_l (done : bool) (code : list instr) {struct code} : option bool :=
     match code with
     | [] => Some done
-    | i :: k => match must_i p c done i with Some d => must_l d k | None => None end
-    end in
-  match i with
-  | IChan ChClose c' => Some (done || String.eqb c c')
-  | IGo _ => Some (done || spawns_closer p c i)
-  | IIf a b => match must_l done a, must_l done b with
-               | Some x, Some y => Some (x && y)
-               | _, _ => None
-               end
-  | ILoop b => match must_l done b with Some _ => Some done | None => None end
-  | IReturn => if done then Some true else None
-  | _ => Some done
-  end.
-Fixpoint must_l (p : prog) (c : string) (done : bool) (code : list instr) : option bool :=
-  match code with
-  | [] => Some done
-  | i :: k => match must_i p c done i with Some d => must_l p c d k | None => None end
-  end.
+    | i :: k => match must_i done i with Some d => must_l d k | None => None end
+    end.
+End Must.
 
 Definition close_shape_ok (p : prog) : bool :=
   let c := "w.fsListenerDone" in
